@@ -326,6 +326,29 @@ def random_long_decimal(rng, n):
     return out
 
 
+def zero_padded_decimal(rng, n):
+    """more than 19 significant digits behind leading zeros (integer part and / or right after the point): the zeros must
+    not eat the digit budget of the 64-bit mantissa register (S-C19-c)"""
+    out = []
+    for k in range(n):
+        z = rng.choice([1, 2, 4, 7, 10, 18, 19, 20, 25])
+        nd = rng.choice([20, 21, 25, 32, 40])
+        ds = str(rng.randrange(1, 10)) + "".join(rng.choice("0123456789") for _ in range(nd - 1))
+        q = rng.choice([0, 0, 3, -7, 20, -30, 280, -300])
+        form = k % 4
+        if form == 0:
+            s = "0" * z + ds                                   # 000123...
+        elif form == 1:
+            cut = rng.randrange(1, nd)
+            s = "0" * z + ds[:cut] + "." + ds[cut:]            # 000123.456...
+        elif form == 2:
+            s = "0." + "0" * z + ds                            # 0.000123...
+        else:
+            s = "0" * z + "." + "0" * rng.choice([0, 1, 5]) + ds   # 000.0123...
+        out.append((s + ("e%d" % q if q else ""), "zero-padded-long"))
+    return out
+
+
 # ------------------------------------------------------------------------------------------------
 # floats (bit patterns) for the writers
 
